@@ -187,7 +187,7 @@ def shard(ctx: Ctx) -> None:
     idx = 0
     Ks = (0.5, 1.0, 7.3, 20.0, 90.0)
     # seeded masks over 24 slots
-    n_masks = 12000 if ctx.thorough else 2400
+    n_masks = 40000 if ctx.thorough else 8000
     mrng = rng.__class__(f"C10-masks/{ctx.seed}")
     for i in range(n_masks):
         K = Ks[i % len(Ks)]
